@@ -700,7 +700,7 @@ func checkC21(r *mon.Run) {
 		return
 	}
 
-	n := r.Pick(1800, 24000)
+	n := r.Pick(6000, 60000)
 	const chunk = 30
 	runTasks(r, (n+chunk-1)/chunk, func(t int, a *acc) {
 		rng := r.Rand(fmt.Sprintf("c21/%d", t))
